@@ -100,6 +100,7 @@ SIG_EMPTY = "empty-doc-accepted"  # F10
 SIG_TORN = "interrupted-offset-table-build-trusted"  # F11 (a)
 SIG_STALE = "stale-offset-table-trusted"  # F11 (b)
 SIG_PARTIAL = "interrupted-decompression-output-accepted"
+SIG_ZST = "truncated-zst-archive-accepted"
 
 _SERVER = None
 _URLLIB3_PROXY = None
@@ -326,6 +327,16 @@ def _table_harmful(table, content):
     return False
 
 
+def _zst_partial(data):
+    """what a streaming zstd decoder has produced when its input ends (reference: zstandard's decompressobj, not Rally's adapter)"""
+    import zstandard
+
+    try:
+        return zstandard.ZstdDecompressor().decompressobj().decompress(data)
+    except zstandard.ZstdError:
+        return b""
+
+
 def _doc_kept(case):
     """the pre-existing document file passes the size check (so neither path replaces it)"""
     d0 = _initial_doc(case)
@@ -367,8 +378,6 @@ def _static_region(case):
     d0 = _initial_doc(case)
     unc = _declared(case)[1]
     kept = _doc_kept(case)
-    if kept and len(d0) == 0 and unc is None:
-        return SIG_EMPTY
     t0 = _initial_offset(case)
     if t0 is not None:
         if kept:
@@ -383,8 +392,17 @@ def _static_region(case):
                 return SIG_TORN
             if state == "stale" and _table_harmful(t0, p):
                 return SIG_STALE
-            if kept and d0 != p and len(d0) > 0:
+            if kept and d0 != p:
                 return SIG_STALE  # the line-count check is skipped together with the rebuild
+    if kept and len(d0) == 0 and unc is None:
+        return SIG_EMPTY
+    if case["format"] == ".zst" and case["disk"]["archive"][0] == "truncated" and not kept and unc is None and _declared(case)[0] is None:
+        # the library path ends silently at the end of a truncated frame; what it produced so far becomes the document file
+        partial = _zst_partial(_initial_archive(case))
+        if len(partial) == 0:
+            return SIG_EMPTY
+        if partial != p and disk.count_lines(partial) == _declared(case)[3]:
+            return SIG_ZST
     return None
 
 
@@ -818,17 +836,22 @@ def run_case(case, obs):
                 table_path = doc_path + ".offset"
                 table_kept = table_path in before and table_path in after and before[table_path][1:] == after[table_path][1:]
                 if data != published:
-                    if len(data) == 0 and env.unc is None:
+                    arch_path = os.path.join(os.path.dirname(doc_path), env.archive_name) if env.archive_name else None
+                    trusted = table_kept and after[table_path][1] >= after[doc_path][1]
+                    if trusted and initial.get(table_path, (None,))[1:] == after[table_path][1:]:
+                        sig = SIG_STALE  # a table that was there from the start is trusted, so the line count is never compared
+                    elif trusted and _build_interrupted(rep):
+                        sig = SIG_TORN  # same, but the table is the unfinished work of the earlier run (killed, or the build raised)
+                    elif len(data) == 0 and env.unc is None:
                         sig = SIG_EMPTY
+                    elif (case["format"] == ".zst" and arch_path in after and _archive_bytes(case).startswith(after[arch_path][2])
+                          and len(after[arch_path][2]) < len(_archive_bytes(case)) and published.startswith(data)):
+                        sig = SIG_ZST  # a truncated .zst archive of undeclared size was decompressed without an error
                     elif (env.archive_name and rep is not None and rep["status"] in ("crashed", "raised") and doc_path in before
                           and before[doc_path][2] == data and initial.get(doc_path, (None,))[1:] != before[doc_path][1:]):
                         # the document file is what the killed / failed decompression of the earlier run left under the final name (a prefix
                         # that ends inside the last line, or the unverified output of an external tool) and this run could not tell
                         sig = SIG_PARTIAL
-                    elif table_kept and after[table_path][1] >= after[doc_path][1] and initial.get(table_path, (None,))[1:] == after[table_path][1:]:
-                        sig = SIG_STALE  # a table that was there from the start is trusted, so the line count is never compared
-                    elif table_kept and after[table_path][1] >= after[doc_path][1] and _build_interrupted(rep):
-                        sig = SIG_TORN  # same, but the table is the unfinished work of the earlier run (killed, or the build raised)
                     else:
                         sig = "doc-content-mismatch"
                     common = os.path.commonprefix([data, published])
@@ -965,6 +988,7 @@ PROBES = {
         decl={"compressed": "right", "uncompressed": "right"}, disk={"doc": ["missing"], "archive": ["correct"], "offset": ["stale"], "offset_age": "older"},
         script=[],
     ),
+    SIG_ZST: _base_case(docs={"n": 1}, format=".zst", decl={"compressed": "none", "uncompressed": "none"}, disk={"archive": ["truncated", 700]}, script=[]),
     # 102 418 bytes whose last line starts at byte 102 370: the library path writes 100 KiB, then the rest; killed in between
     SIG_PARTIAL: _base_case(
         docs={"n": 1921, "style": "ascii", "eol": "lf", "trailing": True, "meta": False, "salt": 0}, format=".bz2",
